@@ -98,6 +98,8 @@ func addIPFIXMessage(msg *entities.Message) {
 			for _, ie := range record.GetOrderedElementList() {
 				elem := ie.GetInfoElement()
 				switch elem.DataType {
+				case entities.OctetArray:
+					fmt.Fprintf(&buf, "    %s: %v \n", elem.Name, ie.GetOctetArrayValue())
 				case entities.Unsigned8:
 					fmt.Fprintf(&buf, "    %s: %v \n", elem.Name, ie.GetUnsigned8Value())
 				case entities.Unsigned16:
